@@ -35,6 +35,12 @@ CHECKS = {
          "accept iff fits for one base alternative; every generated case's accept/reject compared with the verified "
          "matcher, unique-fit and between-ness oracles",
          "4 C06", "Coq proof of the fits decision procedure + engine correspondence + oracle"),
+ "C08": ("add_expr wiring modelled over an abstract add_from: for every well-formed expression of any depth the "
+         "from/internal/via triples are exactly the declaratively built flow graph of its application tree (sources "
+         "shared by identity, one internal node per function-typed argument fed by every other input and by sibling "
+         "operations, nested internals fed by the enclosing one), first-order case = plain tree; run against "
+         "TransformationGraph.add_expr of /repo with an own isomorphism check",
+         "4 C08", "Coq proof by induction on expressions + correspondence + independently built graph oracle"),
  "C09": ("add_from model: depends = transitive closure of from after every call list (any order, cycles, both "
          "flags), every prefix closed, order irrelevant; verified closure decider used as oracle on every generated "
          "expression/workflow graph and direct call history of /repo",
